@@ -1,75 +1,177 @@
-(** C09 — the shared-memory accesses and lock operations each transition of the control LTS
-    (Workers.v) performs, in program order.  Locations and mutexes: Race.v.
-    The UCI thread is thread [S N]. *)
+(** C09 — the shared-memory accesses and lock operations of the control code, as a layer over the
+    C10 transition system (Workers.v).  Locations, mutexes, access kinds: Race.v.
+
+    The LTS of Workers.v is extended (as a product, its transitions are untouched) with the UCI
+    option hand-shake of EngineMainThread:
+      setOptionWhenIdle (UCI thread)   lock; pendingOptions[n] = v; optionsSetFinished = false; unlock; notify
+      setOptions        (engine thread) loop { lock; swap pendingOptions; if empty { optionsSetFinished = true; return }
+                                               unlock; Parameters::set -> listeners (setupTT -> reSize/clear, ...) }
+      waitOptionsSet    (UCI thread)   lock; while (!optionsSetFinished) wait; unlock   -- in EngineControl::stopThread
+    and every transition is annotated with the accesses it performs, in program order.
+    ponder / infinite are std::atomic<bool> with seq_cst accesses in the code; the model tags them
+    [Relaxed], i.e. derives no ordering from them (fewer happens-before edges: sound for race freedom).
+    Thread numbers: 0 engine thread, 1..N helpers, [uci] = S N the UCI thread.
+    [gp]: does `go ponder` wait for pending options like `go` does (true in the code: both call
+    stopThread()); gp = false is the variant in which only startSearch waits. *)
 From Coq Require Import ZArith List Bool Arith.
 From Texel Require Import Workers.Workers Workers.Race.
 Import ListNotations.
 
+(** where the engine thread is inside EngineMainThread::setOptions *)
+Inductive eopt := EOIdle | EONeed | EOTaken.
+
+Record xstate := mkX {
+  base : state;
+  xpend : bool;      (* pendingOptions is non-empty *)
+  xfin : bool;       (* optionsSetFinished *)
+  xeo : eopt
+}.
+
+Inductive xlabel :=
+| XL (lb : label)    (* a transition of the control LTS *)
+| XSetOpt            (* UCI thread: setoption -> setOptionWhenIdle *)
+| XTake              (* engine thread: setOptions: lock; swap / test pendingOptions; unlock *)
+| XApply.            (* engine thread: setOptions: params.set(...) for the options taken *)
+
 Section Acc.
 Variable N : nat.
 Variable parent : tid -> option tid.
+Variable gp : bool.
 Definition uci : tid := S N.
 
-(** ThreadCommunicator::doSend* of thread t into mailbox x: lock(mailbox x); cmdQueue.push_back;
-    notifier->notify() { lock(notifier x); notified = true; unlock }; unlock *)
-Definition push_events (t x : tid) : list tev :=
-  [Acq t (MQ x); Acc t (LQueue x) true false;
-   Acq t (MN x); Acc t (LFlag x) true false; Rel t (MN x); Rel t (MQ x)].
+Definition xinit : xstate := mkX init false true EOIdle.
 
-Definition notify_events (t x : tid) : list tev :=
-  [Acq t (MN x); Acc t (LFlag x) true false; Rel t (MN x)].
+(** [go] waits for the options (stopThread -> waitOptionsSet); [go ponder] does iff gp *)
+Definition go_waits (p : bool) : bool := negb p || gp.
+
+Definition xstep (x : xstate) (xl : xlabel) : option xstate :=
+  match xl with
+  | XL lb =>
+      let ok :=
+        match lb with
+        | LT O ARdSearch | LT O AClear => match xeo x with EOIdle => true | _ => false end
+        | LE (EGo p) => if go_waits p then xfin x else true
+        | _ => true
+        end in
+      if ok then
+        match lstep N parent (base x) lb with
+        | Some s' =>
+            let eo' :=
+              match lb with
+              | LT O ARdQuit => if quitf (base x) then xeo x else EONeed     (* setOptions() in mainLoop *)
+              | LT O ANotifySelf =>
+                  match pc (th (base x) 0) with MFinalNotify => EONeed | _ => xeo x end  (* setOptions() after doSearch *)
+              | _ => xeo x
+              end in
+            Some (mkX s' (xpend x) (xfin x) eo')
+        | None => None
+        end
+      else None
+  | XSetOpt =>
+      match epc (base x) with
+      | EIdle => if quitf (base x) then None
+                 else Some (mkX (set_flag (base x) 0 true) true false (xeo x))
+      | _ => None
+      end
+  | XTake =>
+      match xeo x with
+      | EONeed => if xpend x then Some (mkX (base x) false (xfin x) EOTaken)
+                  else Some (mkX (base x) false true EOIdle)
+      | _ => None
+      end
+  | XApply =>
+      match xeo x with
+      | EOTaken => Some (mkX (base x) (xpend x) (xfin x) EONeed)
+      | _ => None
+      end
+  end.
+
+(** ThreadCommunicator::doSend* of thread t into mailbox m: lock(mailbox m); cmdQueue.push_back;
+    notifier->notify() { lock(notifier m); notified = true; unlock }; unlock *)
+Definition push_events (t m : tid) : list tev :=
+  [Acq t (MQ m); Acc t (LQueue m) true Plain;
+   Acq t (MN m); Acc t (LFlag m) true Plain; Rel t (MN m); Rel t (MQ m)].
+
+Definition notify_events (t m : tid) : list tev :=
+  [Acq t (MN m); Acc t (LFlag m) true Plain; Rel t (MN m)].
+
+(** a searcher starting to search reads option values and the table geometry / generation *)
+Definition search_reads (t : tid) : list tev :=
+  [Acc t LOpt false Plain; Acc t LTT false Plain].
 
 Definition act_events (s : state) (t : tid) (a : act) : list tev :=
   match a with
-  | AWait => [Acq t (MN t); Acc t (LFlag t) false false; Acc t (LFlag t) true false; Rel t (MN t)]
-  | APollEmpty => [Acq t (MQ t); Acc t (LQueue t) false false; Rel t (MQ t)]
-  | APop => [Acq t (MQ t); Acc t (LQueue t) false false; Acc t (LQueue t) true false; Rel t (MQ t)]
-  | APush x => push_events t x
+  | AWait => [Acq t (MN t); Acc t (LFlag t) false Plain; Acc t (LFlag t) true Plain; Rel t (MN t)]
+  | APollEmpty =>
+      [Acq t (MQ t); Acc t (LQueue t) false Plain; Rel t (MQ t)] ++
+      (* helper mainLoop: jobId != -1 -> doSearch *)
+      match t, pc (th s t) with
+      | S _, PPoll KMain =>
+          if negb (qa (th s t) =? 0)%Z && negb (job (th s t) =? -1)%Z then search_reads t else []
+      | _, _ => []
+      end
+  | APop => [Acq t (MQ t); Acc t (LQueue t) false Plain; Acc t (LQueue t) true Plain; Rel t (MQ t)]
+  | APush m => push_events t m
   | ANotifySelf => notify_events t t
   | AFinish =>
       if hasres (th s t) then []
       else match parent t with Some p => push_events t p | None => [] end
-  | ARdQuit =>
-      (* if (quitFlag) break;  -- no lock;  then setOptions(): lock(mutex) ... unlock *)
-      Acc t LQuit false false :: (if quitf s then [] else [Acq t ME; Rel t ME])
+  | ARdQuit => [Acc t LQuit false Atomic]                 (* if (quitFlag) break; *)
   | ARdSearch =>
-      (* if (search) -- no lock; doSearch then reads sc, pos, moves, ... -- no lock *)
-      Acc t LSearch false false :: (if search s then [Acc t LParams false false] else [])
-  | AClear => [Acq t ME; Acc t LSearch true false; Rel t ME]
-  | ABest => [Acc t LPonder false true]
+      (* if (search) doSearch(): sc, pos, moves, ... then options and the table are read *)
+      Acc t LSearch false Atomic ::
+      (if search s then Acc t LParams false Plain :: search_reads t else [])
+  | AClear => [Acq t ME; Acc t LSearch true Atomic; Rel t ME]
+  | ABest => [Acc t LPonder false Relaxed; Acc t LTT false Plain]   (* getPonderMove probes the table *)
   | AMaxDepth | AInitSearch | AStartJob | AStopSearch => []
   end.
 
-Definition env_events (s : state) (e : eact) : list tev :=
+Definition env_events (e : eact) : list tev :=
   match e with
   | EGo p =>
-      (* stopThread: ponder = infinite = false (atomic); waitStop: lock; read search; unlock;
-         startSearch: lock; write parameters; search = true; unlock *)
-      [Acc uci LPonder true true;
-       Acq uci ME; Acc uci LSearch false false; Rel uci ME;
-       Acq uci ME; Acc uci LParams true false; Acc uci LSearch true false; Rel uci ME]
+      (* stopThread: ponder = infinite = false; waitStop: lock; read search; unlock; [waitOptionsSet];
+         startThread: reads UciParams, tt.nextGeneration(); EngineMainThread::startSearch: lock;
+         write parameters; search = true; unlock *)
+      [Acc uci LPonder true Relaxed; Acq uci ME; Acc uci LSearch false Atomic; Rel uci ME] ++
+      (if go_waits p then [Acq uci ME; Acc uci LFin false Plain; Rel uci ME] else []) ++
+      [Acc uci LOpt false Plain; Acc uci LTT true Plain;
+       Acq uci ME; Acc uci LParams true Plain; Acc uci LSearch true Atomic; Rel uci ME]
   | ENotify => notify_events uci 0
-  | EUnponder => [Acc uci LPonder true true]
+  | EUnponder => [Acc uci LPonder true Relaxed]
   | ESpur => notify_events uci 0
-  | EQuit => [Acq uci ME; Acc uci LQuit true false; Rel uci ME]
+  | EQuit => [Acq uci ME; Acc uci LQuit true Atomic; Rel uci ME]
   end.
 
 Definition label_events (s : state) (lb : label) : list tev :=
-  match lb with LT t a => act_events s t a | LE e => env_events s e end.
+  match lb with LT t a => act_events s t a | LE e => env_events e end.
 
-(** the access trace of a schedule (None if the schedule is not a path of the LTS) *)
-Fixpoint trace_of (s : state) (ls : list label) : option (list tev) :=
+Definition xevents (x : xstate) (xl : xlabel) : list tev :=
+  match xl with
+  | XL lb => label_events (base x) lb
+  | XSetOpt =>
+      [Acq uci ME; Acc uci LPend true Plain; Acc uci LFin true Plain; Rel uci ME] ++ notify_events uci 0
+  | XTake =>
+      if xpend x then [Acq 0 ME; Acc 0 LPend false Plain; Acc 0 LPend true Plain; Rel 0 ME]
+      else [Acq 0 ME; Acc 0 LPend false Plain; Acc 0 LFin true Plain; Rel 0 ME]
+  | XApply => [Acc 0 LOpt true Plain; Acc 0 LTT true Plain]
+  end.
+
+(** run a schedule: final state and access trace (None if it is not a path) *)
+Fixpoint xrun (x : xstate) (ls : list xlabel) : option (xstate * list tev) :=
   match ls with
-  | [] => Some []
-  | lb :: r =>
-      match lstep N parent s lb with
-      | Some s' =>
-          match trace_of s' r with
-          | Some tr => Some (label_events s lb ++ tr)
+  | [] => Some (x, [])
+  | xl :: r =>
+      match xstep x xl with
+      | Some x' =>
+          match xrun x' r with
+          | Some (xf, tr) => Some (xf, xevents x xl ++ tr)
           | None => None
           end
       | None => None
       end
   end.
+
+Definition trace_of (x : xstate) (ls : list xlabel) : option (list tev) :=
+  option_map snd (xrun x ls).
 
 End Acc.
